@@ -230,3 +230,27 @@ structure RunDict (ρ : Type) where
   problem_name : String
 deriving Repr
 end Multi
+
+/-! ## the builtins `ParameterGrid` uses -/
+namespace Py
+/-- `sorted(d.items())`: tuples whose first components are the (distinct) keys of a dict, so the order is the keys' — Python compares `str` by code
+point, as `String.lt` does; CPython's sort is stable -/
+def sortedItems (l : List (String × β)) : List (String × β) := isort (fun a b => !decide (b.1 < a.1)) l
+
+/-- `a, b = zip(*xs)` for a list of pairs: the two columns; with no pair there is nothing to unpack (`ValueError`) -/
+def unzipNonempty (l : List (α × β)) : Except Err (List α × List β) :=
+  if l.isEmpty then .error .valueError else .ok l.unzip
+
+/-- `itertools.product(*ls)`: the last factor varies fastest; one empty tuple for no factors -/
+def product : List (List α) → List (List α)
+  | [] => [[]]
+  | vs :: rest => vs.flatMap (fun v => (product rest).map (fun p => v :: p))
+
+/-- `dict(pairs)`: entered one by one (a repeated key keeps its first position and takes the last value) -/
+def dictOfPairs (l : List (String × β)) : List (String × β) := l.foldl (fun d kv => dictSet d kv.1 kv.2) []
+
+/-- `reduce(operator.mul, xs)` without an initial value: `TypeError` on an empty sequence -/
+def reduceMul : List Int → Except Err Int
+  | [] => .error .typeError
+  | x :: rest => .ok (rest.foldl (· * ·) x)
+end Py
